@@ -278,6 +278,21 @@ func c04Scenarios(thorough bool) []schedItem {
 	}
 	out = append(out, schedItem{Scen{Graph: "G13", Pair: "two-reg", Opt: "referrers", Feat: "noref", Pre: "empty"}, 1, false})
 	out = append(out, schedItem{Scen{Graph: "G13", Pair: "reg-dir", Opt: "referrers", Feat: "noref", Pre: "empty"}, 1, false})
+	out = append(out, schedItem{Scen{Graph: "G13", Pair: "two-reg", Opt: "referrers", Feat: "noref-tgt", Pre: "empty"}, 1, false})
+	out = append(out, schedItem{Scen{Graph: "G23", Pair: "two-reg", Opt: "referrers", Feat: "noref-tgt", Pre: "empty"}, 1, false})
+	// one persistent delay: a goroutine stalled while all its siblings run on
+	for _, g := range []string{"G3", "G4", "G5", "G13", "G14", "G15", "G19", "G21", "G23"} {
+		opt := "default"
+		switch g {
+		case "G13", "G23":
+			opt = "referrers"
+		case "G14", "G21":
+			opt = "digest-tags"
+		}
+		for _, f := range []string{"full", "novalidate"} {
+			out = append(out, schedItem{Scen{Graph: g, Pair: "two-reg", Opt: opt, Feat: f, Pre: "empty", Stall: true}, 1, false})
+		}
+	}
 	out = append(out, schedItem{Scen{Graph: "G3", Pair: "two-reg", Opt: "default", Feat: "full", Pre: "empty", ByDigest: true}, 1, false})
 	out = append(out, schedItem{Scen{Graph: "G3", Pair: "two-reg", Opt: "recursive", Feat: "full", Pre: "complete"}, 1, false})
 	return out
@@ -318,7 +333,7 @@ func c04Explore(t *testing.T, rec *ev.Rec, it schedItem) {
 		for _, l := range x.LogSummary() {
 			c.Logf("%s", l)
 		}
-		c.Logf("err=%v", x.Err)
+		c.Logf("err=%s", errText(x))
 		return r
 	}
 	ex := &explore.Explorer{Bound: it.Bound, Run: run, Stop: rec.Expired, DetCheckEvery: 307}
